@@ -49,6 +49,7 @@ func c19Check(c *Case) []Violation {
 		return []Violation{viol(c, "C19/rejected", "anchoring failed: %v", t.err)}
 	}
 	var vs []Violation
+	vs = append(vs, alteredReport(c, "C19", "anchoring", t, bs)...)
 	prev, next := t.prev, t.next
 	// 1. reference point
 	rps := asL(t.props["referencePoints"])
@@ -317,10 +318,11 @@ func c19Run(s *Shard) {
 	for _, b := range biasAlphabet(0) {
 		prefixes = append(prefixes, []M{b})
 	}
+	prefixes = append(prefixes, ownPrefixes(anchoringBias(0, false, false))...)
 	sampled := false
 	for _, method := range allMethods {
 		for _, subset := range []bool{false, true} {
-			for _, variant := range []int{0, 1, 2, 3, 4} { // observed range, declared range, degenerate c3, strictly negative c1, c3 at 1e-9 scale
+			for _, variant := range []int{0, 1, 2, 3, 4, 5} { // observed range, declared range, degenerate c3, strictly negative c1, c3 at 1e-9 scale, never-considered alternatives beyond both ends
 				root := rootRequest(method, subset, variant == 1)
 				if variant == 2 {
 					for _, a := range asL(root["knownAlternatives"]) {
@@ -332,6 +334,9 @@ func c19Run(s *Shard) {
 				}
 				if variant == 4 {
 					root = tinyVariant(root)
+				}
+				if variant == 5 {
+					root = wideVariant(root)
 				}
 				for pi, pre := range prefixes {
 					if variant >= 2 && pi > 0 {
